@@ -80,6 +80,9 @@ Scenario(fam, proto, kind, probe, ph, host, custom, ua, probeText, method, path,
 
 \* forward URLs with a path: plain, and with an escape of its own that must survive as configured
 Prefixes == {"/api", "/v1%2Fbeta"}
+\* forward URL http://backend/api?k=v: <<client target, what the backend must see>>
+FwdQueryCases == { <<"/p", "/api/p?k=v">>, <<"/p?a=1", "/api/p?k=v&a=1">>, <<"/p?", "/api/p?k=v">>, <<"/p?a=1&", "/api/p?k=v&a=1&">>,
+                   <<"/p?&a=1", "/api/p?k=v&&a=1">>, <<"/p?a=1;b=2", "/api/p?k=v&a=1;b=2">>, <<"/p?k=v", "/api/p?k=v&k=v">> }
 
 Scenarios ==
   \* C05: client-supplied fingerprint headers against every injector outcome
@@ -109,6 +112,10 @@ Scenarios ==
   \* ... also behind a forward URL that has a path of its own
   { [Scenario("target", p, "normal", FALSE, FALSE, "vf.test", "absent", <<"curl/8">>, FALSE, "GET", pa, <<>>) EXCEPT !.prefix = pf, !.wantTarget = pf \o pa] :
       p \in Protos, pf \in Prefixes, pa \in Targets }
+  \cup
+  \* ... and behind a forward URL that has a query of its own: the configured query, then the client's, octet for octet
+  { [Scenario("target", p, "normal", FALSE, FALSE, "vf.test", "absent", <<"curl/8">>, FALSE, "GET", c[1], <<>>) EXCEPT !.prefix = "/api?k=v", !.wantTarget = c[2]] :
+      p \in Protos, c \in FwdQueryCases }
   \cup
   \* C08 header clause: end-to-end headers kept, hop-by-hop removed, Host
   { Scenario("keep", p, "normal", FALSE, ph, "vf.test", "absent", <<"curl/8">>, FALSE, "GET", "/a", ls) :
